@@ -311,6 +311,11 @@ fn run_body(c: &BodyCase, o: &mut Outcome) -> Result<(), Failure> {
                 items.push(Err(s.status()));
             }
         }
+        // a source need not end right after an error item: whatever it would yield next is never sent
+        if err.is_some() && c.msgs.len() % 2 == 0 {
+            items.push(Ok(b"item behind the error item".to_vec()));
+            o.label("source_continues_behind_its_error_item");
+        }
         go!(items, RawCodec::with(c.buffer_size, c.yield_threshold).encoder())
     };
 
@@ -622,8 +627,13 @@ fn run_server(c: &ServerWire, o: &mut Outcome) -> Result<(), Failure> {
     let sh2 = sh.clone();
     let res = rt::run_virtual(c.rt_seed, Duration::from_secs(3600), async move {
         let mut server = tonic::transport::Server::builder();
+        // the deadline is either the server's own (Server::timeout) or only the caller's (grpc-timeout sent by this
+        // non-tonic client to a server that has no timeout of its own)
+        let via_header = cw.rt_seed % 2 == 1;
         if let Some(t) = cw.srv_timeout_ms {
-            server = server.timeout(Duration::from_millis(t as u64));
+            if !via_header {
+                server = server.timeout(Duration::from_millis(t as u64));
+            }
         }
         let router = if cw.prost {
             let mut s = vt::test_server::TestServer::new(sh2.clone());
@@ -647,6 +657,9 @@ fn run_server(c: &ServerWire, o: &mut Outcome) -> Result<(), Failure> {
         let mut rb = http::Request::builder().method("POST").uri(format!("http://pipe.test{path}")).header("content-type", "application/grpc").header("te", "trailers");
         if let Some(a) = &cw.accept_hdr {
             rb = rb.header("grpc-accept-encoding", a.as_str());
+        }
+        if let (Some(t), true) = (cw.srv_timeout_ms, via_header) {
+            rb = rb.header("grpc-timeout", format!("{t}m"));
         }
         let req = rb.body(()).unwrap();
         let (resp_fut, mut stream) = send_req.send_request(req, false).map_err(|e| format!("send_request: {e}"))?;
@@ -691,6 +704,7 @@ fn run_server(c: &ServerWire, o: &mut Outcome) -> Result<(), Failure> {
     };
     ensure!(seen.error.is_none(), "C03/response-stream-error", "response failed at the HTTP/2 level: {:?}", seen.error);
     // a server timeout shorter than the handler latency turns the call into a CANCELLED trailers-only response
+    o.label_if(c.srv_timeout_ms.is_some() && c.rt_seed % 2 == 1, "deadline_only_in_the_callers_grpc_timeout_header");
     let expired = match c.srv_timeout_ms {
         Some(t) if c.bad_path == 0 => {
             let l = c.script.latency_ms as u64;
